@@ -11,6 +11,9 @@ def _c05(tier, seed):
         dict(name="ige", pkg="internal/aes_ige", harness=["harness/aes_ige/c05.go"],
              runs=["H_C05_ige(%d)" % b for b in nb] + ["H_C05_lengths(%d)" % (L + 8)] + ["H_C05_encrypt(1,%d)" % L],
              validate_runs=["H_C05_ige(2)", "H_C05_lengths(48)", "H_C05_encrypt(1,40)"], solver="z3"),
+        dict(name="tempkeys", pkg="internal/aes_ige", harness=["harness/aes_ige/c05.go"],
+             runs=["H_C05_tempkeys()"] + ["H_C05_tempwrap_self(%d,%d)" % (a, min(a + 3, L)) for a in range(0, L + 1, 4)] + ["H_C05_tempwrap_peer(%d,%d)" % (a, min(a + 3, L)) for a in range(0, L + 1, 4)],
+             validate_runs=["H_C05_tempkeys()", "H_C05_tempwrap_self(0,40)", "H_C05_tempwrap_peer(0,40)"], solver="cvc5"),
     ]
 
 def _c03(tier, seed):
@@ -269,10 +272,10 @@ PROPS = {
     ),
     "C05": dict(
         jobs=_c05,
-        bounds={"quick": "IGE block counts {1,2,3,4,8}; all lengths 0..48 for the refusal rule; Encrypt payloads 1..40; all key/IV/data bits symbolic",
-                "thorough": "IGE block counts 1..8,12,16; lengths 0..80; Encrypt payloads 1..72"},
+        bounds={"quick": "IGE block counts {1,2,3,4,8}; all lengths 0..48 for the refusal rule; Encrypt payloads 1..40; temp keys for all nonce values with 0..2 leading zero bytes; key-exchange wrappers for every payload length 0..40 (own sealing with arbitrary random padding, and a conformant peer with 0..15 padding bytes); all key/IV/data/nonce bits symbolic",
+                "thorough": "IGE block counts 1..8,12,16; lengths 0..80; Encrypt and wrapper payloads up to 72"},
         outside="longer inputs; AES itself (uninterpreted permutation pair with D(k,E(k,x))=x); SHA-1 (uninterpreted per input length)",
         assumptions=["crypto/aes Block.Encrypt/Decrypt modelled as uninterpreted functions E,D: BV256 x BV128 -> BV128 with ground inverse axioms",
-                     "crypto/sha1.Sum modelled as one uninterpreted function per input length"],
+                     "crypto/sha1.Sum modelled as one uninterpreted function per input length", "wrapper harnesses: SHA-1 collision-free on the path's applications (the trimming loop compares digests at up to 16 cut points)", "math/rand.Read (dry.RandomBytes) returns arbitrary bytes", "math/big.Int as bit-vectors; nonces with more than 2 leading zero bytes are outside the bound"],
     ),
 }
